@@ -130,6 +130,12 @@ def parsePrim (t : String) : Option (Option Prim) :=
     | "bytes" => (parseHex p).map Prim.bytes
     | "err" => (parseChain p).map fun (m, ss) => Prim.error m ss
     | "erri" => (parseChain p).map fun (m, ss) => Prim.error m ss   -- sources stored inline: the same value
+    | "dbgev" =>
+      -- a Debug object whose rendering also emits an event (`<site>.<hex text>`); such programs are
+      -- oracle-only (line `nestedtracing 1`), the value itself is the rendered text
+      (match p.splitOn "." with
+       | [_, h] => (parseHex h).map Prim.debugFmt
+       | _ => none)
     | _ => none).map some
   | _ => none
 
